@@ -544,7 +544,7 @@ fn main() {
         let out = rt.block_on(run_virtual(&sc, &mut next_seq));
         check(&rep, Some(&sc), &out, "virtual", true);
     }
-    for _ in 0..a.pick(1_500, 60_000) {
+    for _ in 0..a.pick(1_500, 200_000) {
         let sc = random_scenario(&mut rng);
         let out = rt.block_on(run_virtual(&sc, &mut next_seq));
         check(&rep, Some(&sc), &out, "virtual", true);
